@@ -130,7 +130,7 @@ func c19Gen(r *Run, rng *gen.Rng, corpus []string) *c19Inv {
 	// input file name variants
 	main := gw.Main
 	if rng.Chance(55) {
-		nm := rng.Pick([]string{"a.b.tsh", "noext", "my prog.tsh", "rel.v1/prog.tsh", "x.y.z", "UPPER.TSH", "prog.tsh.bak", "sub dir/m.tsh", "p.", "tsh"})
+		nm := rng.Pick([]string{"a.b.tsh", "noext", "my prog.tsh", "rel.v1/prog.tsh", "x.y.z", "UPPER.TSH", "prog.tsh.bak", "sub dir/m.tsh", "p.", "tsh", "bash", "batch", "out", "-x.tsh"})
 		// imports are relative to the main file's directory: keep the directory, change the base name
 		nm = path.Join(path.Dir(main), path.Base(nm))
 		if rng.Chance(33) && path.Dir(main) == "." && len(gw.Closure) == 1 {
@@ -170,7 +170,7 @@ func c19Gen(r *Run, rng *gen.Rng, corpus []string) *c19Inv {
 	}
 	mount := rng.Pick([]string{"/sim/m", "/w/my proj", "/home/u/src"})
 	exe := rng.Pick([]string{"/sim/x", "/opt/tsh/bin"})
-	outAbs := rng.Pick([]string{"/sim/out", "/sim/out", "/w/build dir", mount})
+	outAbs := rng.Pick([]string{"/sim/out", "/sim/out", "/w/build dir", mount, "/sim/bash", "/sim/batch", "/sim/-t", "/sim/out.d/v1.2"})
 	files := c13World(gw, r.Env, mount, exe)
 	if outAbs != mount {
 		files = append(files, simrt.FileSpec{Path: outAbs, Dir: true})
@@ -185,7 +185,8 @@ func c19Gen(r *Run, rng *gen.Rng, corpus []string) *c19Inv {
 		}
 		files = append(files, simrt.FileSpec{Path: path.Join(outAbs, "unrelated.txt"), Data: []byte("keep me\n")})
 	}
-	cwd := rng.Pick([]string{mount, "/sim", "/", path.Dir(path.Join(mount, main))})
+	files = append(files, simrt.FileSpec{Path: "/tmp", Dir: true})
+	cwd := rng.Pick([]string{mount, "/sim", "/", path.Dir(path.Join(mount, main)), outAbs, path.Dir(outAbs)})
 	rel := func(abs string) string {
 		if rng.Chance(50) {
 			return abs
@@ -310,7 +311,13 @@ func c19Gen(r *Run, rng *gen.Rng, corpus []string) *c19Inv {
 		inv.OptShape += " !" + inv.Why
 	}
 	b := c13Budgets()
-	inv.Spec = simrt.WorldSpec{Files: files, Cwd: cwd, Exe: path.Join(exe, "tsh"), Args: args,
+	// /tmp is its own file system (as it commonly is): a rename from there into the output directory is EXDEV.
+	// Sometimes the output directory is a separate file system from the sources as well.
+	devices := []string{"/tmp"}
+	if rng.Chance(30) && outAbs != mount {
+		devices = append(devices, outAbs)
+	}
+	inv.Spec = simrt.WorldSpec{Devices: devices, Files: files, Cwd: cwd, Exe: path.Join(exe, "tsh"), Args: args,
 		MapMode: rng.Pick([]string{"canonical", "reversed", "shuffle"}), MapSeed: rng.U64(), Epoch: int64(rng.Intn(1 << 30)), Budgets: &b}
 	for _, f := range files {
 		if !f.Dir && (strings.HasPrefix(f.Path, mount+"/") && !strings.HasPrefix(f.Path, outAbs+"/") || strings.HasPrefix(f.Path, exe+"/")) {
